@@ -2,12 +2,18 @@ CHECK = {
     "id": "C16",
     "level": "model_checking",
     "engine": "E2",
-    "technique": "explicit-state BFS over refinement histories of the real AMRGrid with invariants on every transition; "
-                 "bounded-exhaustive position/ray/query lattices for the legacy density grids and search structures",
+    "technique": "explicit-state BFS over the refinement histories of the real AMRGrid with every invariant evaluated on every "
+                 "transition; bounded-exhaustive position / neighbour / ray / query lattices for the legacy density grids and "
+                 "search structures against index-arithmetic, long double marcher and brute-force oracles",
     "level_text": "TODO",
     "level_note": "TODO",
     "quick_deadline": 110,
     "thorough_deadline": 1200,
-    "parts": [{"name": "amr", "bin": "c16_amr"}],
+    "parts": [
+        {"name": "amr", "bin": "c16_amr", "quick_share": 0.4, "thorough_share": 0.5},
+        {"name": "cartesian", "bin": "c16_cartesian", "quick_share": 0.25, "thorough_share": 0.25},
+        {"name": "amrdens", "bin": "c16_amrdens", "quick_share": 0.25, "thorough_share": 0.2},
+        {"name": "search", "bin": "c16_search", "quick_share": 0.1, "thorough_share": 0.05},
+    ],
     "assumptions": [],
 }
